@@ -140,6 +140,17 @@ fn main() {
             }
             println!("replay: the recorded violation does not reproduce on this tree");
         }
+        "eval" => {
+            // triage helper: vrlmc eval <program-file> [event-json]  → compile diagnostics or the outcome
+            let src = std::fs::read_to_string(args.get(2).cloned().unwrap_or_else(|| usage())).expect("program file");
+            let event = args.get(3).map(|t| vv::dec(&serde_json::from_str::<J>(t).expect("event json"))).unwrap_or_else(vrlx::empty_object);
+            if law::prog(&src).is_none() {
+                println!("REJECTED {}", law::why_rejected(&src));
+            } else {
+                let (o, ev) = law::call_ev(&src, event);
+                println!("{} event={}", o.show(), vv::show(&ev));
+            }
+        }
         "benchpar" => {
             let nt: usize = args.get(2).and_then(|s| s.parse().ok()).unwrap_or(16);
             let t = std::time::Instant::now();
